@@ -141,6 +141,54 @@ Proof.
   - cbn [fst]. exact I.
 Qed.
 
+(* ---- WRITES ARE TOTALLY ORDERED WITH THE INSTALLS: along any run of locked steps every write is
+   the document of the state right after the step that made it, and the last document written
+   differs from the final state in access stamps only *)
+Lemma step_alive_cases (s : store) alive e :
+  (fst (step_alive alive s e) = step s e) \/ (step_alive alive s e = (s, [], RClose, false)).
+Proof. destruct e; cbn [step_alive fst]; auto. destruct alive; auto. Qed.
+
+Theorem writes_are_state_docs es : forall (s : store) alive, Inv s ->
+  Forall (fun x : store * list (effect V) => snd x = [] \/ snd x = [Flush (doc (fst x))]) (run_trace s alive es).
+Proof.
+  induction es as [|e es IH]; intros s alive I; cbn [run_trace]; [constructor|].
+  destruct (step_alive alive s e) as [[[s' fx] r] alive'] eqn:E.
+  destruct (step_alive_cases s alive e) as [C|C]; rewrite E in C; cbn [fst] in C.
+  - constructor.
+    + cbn [fst snd]. destruct (@step_flush_or_stamps _ _ _ _ _ (inv_sorted I) (eq_sym C)) as [[-> _] | -> ]; auto.
+    + apply IH. pose proof (step_Inv e I) as I'. rewrite <- C in I'. exact I'.
+  - inversion C; subst. constructor; [left; reflexivity|]. apply IH. exact I.
+Qed.
+
+Lemma last_nonempty_default {A} (l : list A) : forall y d d', List.last (y :: l) d = List.last (y :: l) d'.
+Proof. induction l as [|z l IH]; intros y d d'; [reflexivity|]. change (List.last (z :: l) d = List.last (z :: l) d'). apply IH. Qed.
+
+Lemma last_cons {A} (l : list A) x d : List.last (x :: l) d = List.last l x.
+Proof. destruct l as [|y l]; [reflexivity|]. change (List.last (y :: l) d = List.last (y :: l) x). apply last_nonempty_default. Qed.
+
+Theorem last_write_is_final_state es : forall (s : store) alive d0, Inv s ->
+  nostamp d0 = nostamp (doc s) ->
+  nostamp (List.last (writes_of (run_trace s alive es)) d0) = nostamp (doc (final_of s (run_trace s alive es))).
+Proof.
+  unfold final_of. induction es as [|e es IH]; intros s alive d0 I D; cbn [run_trace writes_of flat_map map List.last]; auto.
+  destruct (step_alive alive s e) as [[[s' fx] r] alive'] eqn:E.
+  assert (X : Inv s' /\ ((fx = [] /\ nostamp (doc s') = nostamp (doc s)) \/ fx = [Flush (doc s')])).
+  { destruct (step_alive_cases s alive e) as [C|C]; rewrite E in C; cbn [fst] in C.
+    - split.
+      + pose proof (step_Inv e I) as I'. rewrite <- C in I'. exact I'.
+      + apply (@step_flush_or_stamps _ _ _ _ _ (inv_sorted I) (eq_sym C)).
+    - inversion C; subst. split; auto. }
+  destruct X as [I' [[-> NS] | -> ]]; cbn [map fst flat_map app].
+  - fold (writes_of (run_trace s' alive' es)).
+    transitivity (nostamp (doc (List.last (map fst (run_trace s' alive' es)) s'))).
+    + apply IH; auto. congruence.
+    + rewrite last_cons. reflexivity.
+  - fold (writes_of (run_trace s' alive' es)).
+    transitivity (nostamp (List.last (writes_of (run_trace s' alive' es)) (doc s'))).
+    + rewrite last_cons. reflexivity.
+    + rewrite (IH s' alive' (doc s') I' eq_refl). rewrite last_cons. reflexivity.
+Qed.
+
 (* ---- the cache content tracks the state: invariant over all histories with working writes *)
 Definition clean (P : store -> Prop) (h : hstate V) : Prop :=
   match pers h with
